@@ -1159,7 +1159,7 @@ func (g *Gen) freshLoadFinale() {
 	d := ecs.EntityDump{Entities: append([]ecs.Entity{}, g.r.dumps[kk].Entities...), Alive: append([]uint32{}, g.r.dumps[kk].Alive...)}
 	for round := 0; round < 2; round++ {
 		g.do(fmt.Sprintf("world+ %d 0 %d", pick(g.rng, []int{inc, inc, inc, 4, 128}), ecs.MaskTotalBits))
-		g.do("load " + k)
+		g.do("load " + k + g.viaJSON())
 		g.do("shape pif")
 		// touch a high id first: remove a high alive entity / recycle a high free id
 		alive := map[uint32]bool{}
@@ -1192,6 +1192,15 @@ func (g *Gen) freshLoadFinale() {
 	}
 }
 
+// viaJSON: half of the loads take the dump through encoding/json first, as an application
+// persisting it would
+func (g *Gen) viaJSON() string {
+	if g.rng.chance(50) {
+		return " json"
+	}
+	return ""
+}
+
 func (g *Gen) genDumpLoad(faulty bool) {
 	if len(g.openQueries()) > 0 && !faulty {
 		return
@@ -1220,7 +1229,7 @@ func (g *Gen) genDumpLoad(faulty bool) {
 			k = strconv.Itoa(g.rng.intn(len(g.r.dumps)))
 		}
 		g.do("reset")
-		g.do("load " + k)
+		g.do("load " + k + g.viaJSON())
 		g.do("dump")
 		g.do("shape pif")
 		kk, _ := strconv.Atoi(k)
@@ -1236,7 +1245,7 @@ func (g *Gen) genDumpLoad(faulty bool) {
 			// roll back: reset and load the same dump again
 			g.do("rm " + g.entRef(false))
 			g.do("reset")
-			g.do("load " + k)
+			g.do("load " + k + g.viaJSON())
 			for _, e := range g.r.dumps[kk].Entities {
 				if !e.IsZero() && g.rng.chance(50) {
 					g.do(fmt.Sprintf("alive E%d:%d", e.ID(), e.Generation()))
@@ -1282,7 +1291,72 @@ func (g *Gen) subStr() string {
 	return s + " C " + idsStr(g.subset(all, 3))
 }
 
+// narrowListener installs a listener subscribed to one or two trigger bits only and follows it
+// with operations whose events carry those bits together with others: the selection rule is
+// "any subscribed bit", whatever else the operation did (C12)
+func (g *Gen) narrowListener() {
+	bits := []int{1, 2, 4, 8, 16, 32}
+	s := pick(g.rng, bits)
+	if g.rng.chance(50) {
+		s |= pick(g.rng, bits)
+	}
+	comps := " -"
+	if g.rng.chance(35) && len(g.rels) > 0 {
+		comps = " C " + idsStr([]int{pick(g.rng, g.rels)})
+	}
+	if g.rng.chance(25) {
+		g.do(fmt.Sprintf("disp 2 %d%s %d -", s, comps, pick(g.rng, bits)))
+	} else {
+		g.do(fmt.Sprintf("lst %d%s", s, comps))
+	}
+	if len(g.rels) == 0 || len(g.plain) == 0 {
+		return
+	}
+	r := pick(g.rng, g.rels)
+	x := g.subset(g.plain, 1+g.rng.intn(2))
+	if len(x) == 0 {
+		return
+	}
+	// a few plain entities, then batch relation changes through every batch entry point
+	g.do(fmt.Sprintf("bld I %s - batch %d -", idsStr(x), 1+g.rng.intn(3)))
+	f := "W " + idsStr(x) + " " + idsStr(g.rels)
+	q := ""
+	if g.rng.chance(30) {
+		q = "q"
+	}
+	switch g.rng.intn(4) {
+	case 0:
+		g.do(fmt.Sprintf("b_add%s %s %s", q, f, idsStr([]int{r})))
+	case 1:
+		g.do(fmt.Sprintf("b_xchg%s %s %s %s", q, f, idsStr([]int{r}), idsStr(x[:1])))
+	case 2:
+		g.do(fmt.Sprintf("rb_xchg%s %s %s 0 %d %s", q, f, idsStr([]int{r}), r, g.targetRef("")))
+	default:
+		g.do(fmt.Sprintf("rb_xchg%s %s %s %s %d %s", q, f, idsStr([]int{r}), idsStr(x[:1]), r, g.targetRef("")))
+	}
+	if q == "q" {
+		if open := g.openQueries(); len(open) > 0 {
+			g.do(fmt.Sprintf("qx %d", open[len(open)-1]))
+		}
+	}
+	f2 := "A " + idsStr([]int{r})
+	switch g.rng.intn(4) {
+	case 0:
+		g.do(fmt.Sprintf("b_rem %s %s", f2, idsStr([]int{r})))
+	case 1:
+		g.do(fmt.Sprintf("b_setrel %s %d %s", f2, r, g.targetRef("")))
+	case 2:
+		g.do(fmt.Sprintf("rb_set %s %d %s", f2, r, g.targetRef("")))
+	default:
+		g.do("b_rment " + f2)
+	}
+}
+
 func (g *Gen) genListener() {
+	if g.rng.chance(30) {
+		g.narrowListener()
+		return
+	}
 	switch g.rng.intn(6) {
 	case 0:
 		g.do("nolst")
